@@ -114,6 +114,7 @@ type Scenario struct {
 	Reqs         []ReqSpec   `json:"reqs"`
 	Actions      []Action    `json:"actions,omitempty"`
 	ExpectClose  bool        `json:"expect_close,omitempty"`
+	PingMidBlock bool        `json:"ping_mid_block,omitempty"` // PING sent (and the reader stopped for a while) when a HEADERS frame without END_HEADERS has been read
 }
 
 func (sc *Scenario) peerSetting(id uint32) (uint32, bool) {
@@ -418,6 +419,9 @@ func randomScenario(idx int, seed uint64, rng *hk.Rand) *Scenario {
 				a.Kind, a.Inc = "wu", hk.Pick(rng, oddIncs)
 			}
 		}
+		if a.Kind == "wu" && rng.Chance(30) {
+			a.Kind = "ping" // a PING of the peer at an arbitrary point of the exchange
+		}
 		// every SETTINGS frame must be acknowledged, also one without parameters or with
 		// nothing but identifiers the client does not know
 		if a.Kind == "settings" && rng.Chance(12) {
@@ -680,6 +684,45 @@ func specialScenarios(start int, seed uint64, thorough bool) []*Scenario {
 		sc.Reqs = []ReqSpec{{Upload: -1, RespSize: 0, RespChunk: 16384, EndOnHeaders: true, AckBatch: set, App: appReadAll, StartDelayUs: 20000}}
 		if set == nil {
 			sc.Reqs[0].AckBatch = [][2]uint32{}
+		}
+		add(sc)
+	}
+	// S14: a request with a body queues for a stream slot (strict limit 1) while the peer lowers
+	// INITIAL_WINDOW_SIZE (acknowledged); when the slot frees, the new stream starts with the
+	// window in force then, not the one in force when the request was queued.
+	for _, nw := range []uint32{1000, 0} {
+		sc := defaultScenario(0, seed, fmt.Sprintf("S14-initial-window-lowered-while-queued-%d", nw))
+		sc.Strict = true
+		sc.PeerSettings = [][2]uint32{{3, 1}, {4, 100000}}
+		sc.InitConnWU = 1 << 22
+		sc.GrantOnTick = true
+		sc.TickUs = 2000
+		sc.Incs = []uint32{4097, 7000}
+		sc.LowStream, sc.LowConn = 1, 1
+		sc.Reqs = []ReqSpec{
+			{Upload: 160000, RespSize: 1, RespChunk: 16384, App: appReadAll},
+			{Upload: 90000, RespSize: 1, RespChunk: 16384, App: appReadAll, Gated: true},
+			{Upload: 70000, UnknownLen: true, RespSize: 1, RespChunk: 16384, App: appReadAll, Gated: true},
+		}
+		sc.Actions = []Action{
+			{TrigUp: 20000, TrigTicks: 400, Kind: "start-req", Inc: 1},
+			{TrigTicks: 5, Kind: "start-req", Inc: 2},
+			{TrigTicks: 10, Kind: "settings", Settings: [][2]uint32{{4, nw}}},
+		}
+		add(sc)
+	}
+	// S15: a PING of the peer processed while the client is in the middle of a header block
+	// (HEADERS read by the peer, CONTINUATION frames held back by a full pipe): the PING ACK
+	// must not land inside the block. Warm-up first so that the peer's SETTINGS are in force.
+	for _, hdr := range []int{40000, 70000} {
+		sc := defaultScenario(0, seed, fmt.Sprintf("S15-ping-inside-header-block-%d", hdr))
+		sc.C2PBuf = 2048
+		sc.PingMidBlock = true
+		sc.PeerSettings = [][2]uint32{{3, 100}}
+		sc.Reqs = []ReqSpec{
+			{Upload: -1, RespSize: 1, RespChunk: 16384, App: appReadAll},
+			{Upload: -1, BigHeader: hdr, RespSize: 10, RespChunk: 16384, App: appReadAll, StartDelayUs: 30000},
+			{Upload: 20000, BigHeader: hdr, RespSize: 10, RespChunk: 16384, App: appReadAll, StartDelayUs: 60000},
 		}
 		add(sc)
 	}
